@@ -154,8 +154,12 @@ def h_stmt(rng, sid, names):
         c = rng.choice(["i", "j", "tmp", "temp"])
         hi = rng.choice([["num", 3], ["var", "nb"], ["var", rng.choice(["tmp_1", "temp_0"])]])
         rhs = h_expr(rng, 2, names + [c])
-        if rng.random() < 0.5:
+        q = rng.random()
+        if q < 0.35:
             rhs = ["+", ["sub", ["var", a], ["var", c]], rhs]
+        elif q < 0.6:
+            # a recurrence: later trips read the element that the first trip has just assigned
+            rhs = ["+", ["sub", ["var", a], ["var", c]], ["*", ["num", 2], ["sub", ["var", a], ["num", 0]]], rhs]
         # (loops are tree nodes, as in what lowering hands to the passes; a statement-level
         # guard would sit outside the loop, so this one is unguarded)
         return {"k": "assign", "lhs": a, "sub": ["var", c], "rhs": rhs, "loops": [], "cond": True, "id": sid,
@@ -203,7 +207,8 @@ def h_tree(rng):
         node = ["S", st]
         if "for" in st:
             c, lo, hi = st.pop("for")
-            node = ["F", c, lo, hi, ["B", node]]
+            # (lowering puts the statement itself under the loop node; a one-statement block is the rarer shape)
+            node = ["F", c, lo, hi, node if rng.random() < 0.7 else ["B", node]]
         stmts.append(node)
 
     def wrap(nodes, depth):
